@@ -91,7 +91,7 @@ func c02Determinism(c *vlib.Ctx) {
 				s2, pi := c02Sig(big[off:off+len(in)], t, o)
 				if pi == nil {
 					if ok, what := s0.Equal(s2); !ok {
-						c.Violation("result-depends-on-bytes-beyond-the-input:"+sig.DiffLayer(s0, s2), "the same bytes embedded in a larger buffer (spare capacity with other content) decode differently: "+what, det())
+						c.Violation("result-depends-on-bytes-beyond-the-input:"+sig.DiffLayerFirst(s0, s2, t.String()), "the same bytes embedded in a larger buffer (spare capacity with other content) decode differently: "+what, det())
 					}
 				}
 				// (2) read-only input followed by a guard page: all later read-only uses included
@@ -108,7 +108,7 @@ func c02Determinism(c *vlib.Ctx) {
 					c.Violation(kind+"@"+pi.Func, fmt.Sprintf("%s while decoding/using a packet whose input lives in read-only memory in front of a guard page (%s, at %s:%d)", kind, optString(o), pi.File, pi.Line), det())
 				} else if pi == nil {
 					if ok, what := s0.Equal(s3); !ok {
-						c.Violation("result-depends-on-buffer-placement:"+sig.DiffLayer(s0, s3), "input at the end of a guard-paged mapping decodes differently: "+what, det())
+						c.Violation("result-depends-on-buffer-placement:"+sig.DiffLayerFirst(s0, s3, t.String()), "input at the end of a guard-paged mapping decodes differently: "+what, det())
 					}
 					if !bytes.Equal(ro, in) {
 						c.Violation("input-buffer-modified:"+t.String(), "the caller's buffer changed during decoding", det())
